@@ -76,7 +76,7 @@ def oracle(ctx, n, sub="oracle"):
 
 
 def cli(ctx, n):
-    """achcli -reformat json|ach as a built binary (glue), thorough tier."""
+    """achcli -reformat json|ach as a built binary (glue), both tiers."""
     d = os.path.join(ctx.rundir, "cli")
     os.makedirs(d, exist_ok=True)
     binp = os.path.join(C.BIN, "achcli_c07")
@@ -131,9 +131,9 @@ def run(ctx):
     post_corr(ctx, ctx.scale(250, 4000))
     summ = oracle(ctx, ctx.scale(1500, 20000))
     ctx.add_summary(summ, "JSON round trip oracle")
+    s2 = cli(ctx, ctx.scale(30, 240))
+    ctx.add_summary(s2, "achcli -reformat")
     if ctx.tier == "thorough":
-        s2 = cli(ctx, 24)
-        ctx.add_summary(s2, "achcli -reformat")
         ctx.cov["forbidden_vernacular"] = [x for x in C.forbidden_vernacular() if "JsonCodec" in x or "C07" in x or "JsonTags" in x or "JsonFile" in x or "JsonSurvive" in x or "JsonPost" in x]
 
 
@@ -142,6 +142,8 @@ def replay(path):
     if not ok:
         print(out[-2000:])
         return 1
-    rc, out = C.sh([os.path.join(C.BIN, "c07"), "replay", path], timeout=600)
+    binp = os.path.join(C.BIN, "achcli_c07")
+    C.sh(["go", "build", "-o", binp, "./cmd/achcli"], cwd=C.REPO, timeout=900)
+    rc, out = C.sh([os.path.join(C.BIN, "c07"), "replay", path], timeout=600, extra_env={"VERIF_ACHCLI": binp})
     print(out)
     return 1 if rc != 0 else 0
